@@ -56,21 +56,22 @@ Record QInv (s : state) : Prop := {
   q_exp_ctx : forall id, has id (expmark s) = true -> has id (ctxs s) = true;
   q_exp_mark : forall h id, In (h, id) (expq s) -> get id (expmark s) = Some h;
   q_new_nodup : NoDup (newq s);
-  q_exp_nodup : NoDup (expq s)
+  q_exp_nodup : NoDup (expq s);
+  q_mark_new : forall id h, get id (newmark s) = Some h -> In (h, id) (newq s)
 }.
 
 Definition q_same (s s' : state) : Prop :=
   ctxs s' = ctxs s /\ newq s' = newq s /\ newmark s' = newmark s /\ expq s' = expq s /\ expmark s' = expmark s.
 
 Lemma QInv_same s s' : q_same s s' -> QInv s -> QInv s'.
-Proof. intros (A & B & C & D & E) [I1 I2 I3 I4 I5 I6 I7 I8 I9]. constructor; rewrite ?A, ?B, ?C, ?D, ?E; assumption. Qed.
+Proof. intros (A & B & C & D & E) [I1 I2 I3 I4 I5 I6 I7 I8 I9 I10]. constructor; rewrite ?A, ?B, ?C, ?D, ?E; assumption. Qed.
 
 (** a context rewritten in place without starting a batch *)
 Lemma QInv_ctx_set s id x x' :
   QInv s -> get id (ctxs s) = Some x -> (x_brun x' = true -> x_brun x = true) ->
   QInv (with_ctxs s (set id x' (ctxs s))).
 Proof.
-  intros [I1 I2 I3 I4 I5 I6 I7 I8 I9] Hg Hb. constructor; simpl; try assumption.
+  intros [I1 I2 I3 I4 I5 I6 I7 I8 I9 I10] Hg Hb. constructor; simpl; try assumption.
   - intros id0 x0 Hg0 Hr. destruct (eq_dec id0 id) as [->|Hne].
     + rewrite get_set_same in Hg0. inversion Hg0; subst. eapply I1; [exact Hg|auto].
     + rewrite get_set_other in Hg0 by exact Hne. eapply I1; eassumption.
@@ -87,7 +88,7 @@ Qed.
 Lemma QInv_new_ctx s id x :
   QInv s -> get id (ctxs s) = None -> x_brun x = false -> QInv (with_ctxs s (set id x (ctxs s))).
 Proof.
-  intros [I1 I2 I3 I4 I5 I6 I7 I8 I9] Hg Hb. constructor; simpl; try assumption.
+  intros [I1 I2 I3 I4 I5 I6 I7 I8 I9 I10] Hg Hb. constructor; simpl; try assumption.
   - intros id0 x0 Hg0 Hr. destruct (eq_dec id0 id) as [->|Hne].
     + rewrite get_set_same in Hg0. inversion Hg0; subst. congruence.
     + rewrite get_set_other in Hg0 by exact Hne. eapply I1; eassumption.
@@ -105,7 +106,7 @@ Lemma QInv_enqueue_new s id x hh :
   (forall h, ~ In (h, id) (newq s)) ->
   QInv (with_newmark (with_newq s (q_add (hh, id) (newq s))) (set id hh (newmark s))).
 Proof.
-  intros [I1 I2 I3 I4 I5 I6 I7 I8 I9] Hg Hb He Hn. constructor; simpl; try assumption.
+  intros [I1 I2 I3 I4 I5 I6 I7 I8 I9 I10] Hg Hb He Hn. constructor; simpl; try assumption.
   - intros h id0 x0 Hin Hg0. apply q_add_in in Hin. destruct Hin as [E|Hin]; [|eapply I2; eassumption].
     inversion E; subst. rewrite Hg in Hg0. inversion Hg0; subst. exact Hb.
   - intros h id0 Hin. apply q_add_in in Hin. destruct Hin as [E|Hin].
@@ -116,6 +117,9 @@ Proof.
   - intros h id0 Hh Hin. apply q_add_in in Hin. destruct Hin as [E|Hin]; [|exact (I5 _ _ Hh Hin)].
     inversion E; subst. congruence.
   - apply q_add_NoDup. exact I8.
+  - intros id0 h Hg0. apply q_add_in. destruct (eq_dec id0 id) as [->|Hne].
+    + rewrite get_set_same in Hg0. inversion Hg0; subst. left. reflexivity.
+    + rewrite get_set_other in Hg0 by exact Hne. right. apply I10. exact Hg0.
 Qed.
 
 Definition ctx_at (s : state) (id : ctxid) : option context := get id (ctxs s).
@@ -177,7 +181,7 @@ Lemma QInv_deq s h id x x1 :
   QInv (f_deq s h id x1) /\ has id (expmark (f_deq s h id x1)) = false
   /\ (forall h', ~ In (h', id) (newq (f_deq s h id x1))) /\ get id (ctxs (f_deq s h id x1)) = Some x1.
 Proof.
-  intros [I1 I2 I3 I4 I5 I6 I7 I8 I9] Hin Hg Hb.
+  intros [I1 I2 I3 I4 I5 I6 I7 I8 I9 I10] Hin Hg Hb.
   assert (Hm : get id (expmark s) = Some h) by (apply I7; exact Hin).
   assert (Hh : has id (expmark s) = true) by (apply has_get; exists h; exact Hm).
   split; [|split; [|split]].
@@ -206,7 +210,7 @@ Qed.
 Lemma QInv_delctx s id :
   QInv s -> has id (expmark s) = false -> (forall h, ~ In (h, id) (newq s)) -> QInv (f_delctx s id).
 Proof.
-  intros [I1 I2 I3 I4 I5 I6 I7 I8 I9] He Hn. constructor; simpl; try assumption.
+  intros [I1 I2 I3 I4 I5 I6 I7 I8 I9 I10] He Hn. constructor; simpl; try assumption.
   - intros id0 x0 Hg0 Hr. destruct (eq_dec id0 id) as [->|Hne]; [rewrite get_del_same in Hg0; discriminate|].
     rewrite get_del_other in Hg0 by exact Hne. eapply I1; eassumption.
   - intros h0 id0 x0 Hin0 Hg0. destruct (eq_dec id0 id) as [->|Hne]; [rewrite get_del_same in Hg0; discriminate|].
@@ -226,7 +230,7 @@ Lemma QInv_deqnew s h id :
   QInv s -> In (h, id) (newq s) ->
   QInv (f_deqnew s h id) /\ (forall h', ~ In (h', id) (newq (f_deqnew s h id))).
 Proof.
-  intros [I1 I2 I3 I4 I5 I6 I7 I8 I9] Hin.
+  intros [I1 I2 I3 I4 I5 I6 I7 I8 I9 I10] Hin.
   assert (Hm : get id (newmark s) = Some h) by (apply I3; exact Hin).
   split.
   - constructor; simpl; try assumption.
@@ -237,6 +241,8 @@ Proof.
     + intros h0 id0 Hin0. apply q_del_in in Hin0. eapply I4. exact (proj2 Hin0).
     + intros h0 id0 Hh0 Hin0. apply q_del_in in Hin0. exact (I5 _ _ Hh0 (proj2 Hin0)).
     + apply q_del_NoDup. exact I8.
+    + intros id0 h0 Hg0. destruct (eq_dec id0 id) as [->|Hne]; [rewrite get_del_same in Hg0; discriminate|].
+      rewrite get_del_other in Hg0 by exact Hne. apply q_del_in. split; [congruence|apply I10; exact Hg0].
   - intros h' Hin'. simpl in Hin'. apply q_del_in in Hin'. destruct Hin' as (Hne & Hin').
     pose proof (I3 _ _ Hin') as Hm'. rewrite Hm in Hm'. inversion Hm'; subst. congruence.
 Qed.
@@ -245,7 +251,7 @@ Lemma QInv_startbatch s id x x' hh :
   QInv s -> get id (ctxs s) = Some x -> (forall h, ~ In (h, id) (newq s)) ->
   (forall h, ~ In (h, id) (expq s)) -> QInv (f_startbatch s id x' hh).
 Proof.
-  intros [I1 I2 I3 I4 I5 I6 I7 I8 I9] Hg Hn He. constructor; simpl; try assumption.
+  intros [I1 I2 I3 I4 I5 I6 I7 I8 I9 I10] Hg Hn He. constructor; simpl; try assumption.
   - intros id0 x0 Hg0 Hr. destruct (eq_dec id0 id) as [->|Hne]; [apply has_set_same|].
     rewrite get_set_other in Hg0 by exact Hne. rewrite has_set_other by exact Hne. eapply I1; eassumption.
   - intros h0 id0 x0 Hin0 Hg0. assert (Hne : id0 <> id) by (intros ->; exact (Hn _ Hin0)).
@@ -490,7 +496,7 @@ Proof.
     eapply QInv_ctx_set; [exact D1|exact Ex1|simpl; auto].
 Qed.
 
-Lemma QInv_exec_msg c s txh m s' : exec_msg c s txh m = Okk s' -> fresh_ctx s (Tx txh m) -> QInv s -> QInv s'.
+Lemma QInv_exec_msg c s txh m s' : exec_msg_plain c s txh m = Okk s' -> fresh_ctx s (Tx txh m) -> QInv s -> QInv s'.
 Proof.
   intros H Hf Hinv. destruct m; simpl in H.
   - unfold define in H. eapply QInv_same; [|exact Hinv]. q_frame H.
@@ -511,11 +517,14 @@ Proof.
   - unfold withdraw in H. eapply QInv_same; [|exact Hinv]. q_frame H.
 Qed.
 
-Lemma QInv_apply c s st : fresh_ctx s st -> QInv s -> QInv (apply c s st).
+Lemma QInv_apply c s st : c_msvc c < 0 -> fresh_ctx s st -> QInv s -> QInv (apply c s st).
 Proof.
-  intros Hf Hinv. unfold apply. destruct (exec_step c s st) as [s'| |] eqn:E; try exact Hinv.
-  destruct st; simpl in E.
-  - eapply QInv_exec_msg; eassumption.
+  intros Hm Hf Hinv. unfold apply. destruct (exec_step c s st) as [s'| |] eqn:E; try exact Hinv.
+  destruct st; cbn [exec_step] in E.
+  9: { change (exec_msg_plain c s 0 (MBind svc prov depd depa pr qos true owner) = Okk s') in E.
+       eapply QInv_exec_msg; [exact E|exact I|exact Hinv]. }
+  all: simpl in E.
+  - rewrite (exec_msg_plain_eq _ _ _ _ Hm) in E. eapply QInv_exec_msg; eassumption.
   - destruct (0 <=? dt); [|discriminate]. inversion E; subst. apply QInv_end_block. exact Hinv.
   - inversion E; subst. eapply QInv_same; [|exact Hinv]. repeat split.
   - eapply QInv_same; [|exact Hinv]. q_frame E.
@@ -546,5 +555,5 @@ Proof.
 Qed.
 
 Theorem QInv_reachable c steps h0 t0 l0 :
-  fresh_history c (init h0 t0 l0) steps -> QInv (run c (init h0 t0 l0) steps).
-Proof. intros Hf. apply (run_inv_fresh QInv c); [intros; apply QInv_apply; assumption|exact Hf|apply QInv_init]. Qed.
+  c_msvc c < 0 -> fresh_history c (init h0 t0 l0) steps -> QInv (run c (init h0 t0 l0) steps).
+Proof. intros Hm Hf. apply (run_inv_fresh QInv c); [intros; apply QInv_apply; assumption|exact Hf|apply QInv_init]. Qed.
